@@ -98,6 +98,9 @@ def rows_for(draw, spec, seq, max_rows=6):
     models = list(S.iter_models(spec))
     for a, n, m in models:
         counts[m['uid']] = draw(st.integers(0, max_rows))
+        # models whose relation target is not (yet) in this spec get no rows
+        if any(f['target'] and S.get_model(spec, *f['target']) is None for f in m['fields']):
+            counts[m['uid']] = 0
     # FK null->non-null changes / non-null FKs need target rows
     changed = True
     guard = 0
@@ -108,6 +111,8 @@ def rows_for(draw, spec, seq, max_rows=6):
             for f in m['fields']:
                 if f['kind'] in ('ForeignKey', 'OneToOne') and not f['null']:
                     tgt = S.get_model(spec, *f['target'])
+                    if tgt is None:
+                        continue
                     if counts[m['uid']] > 0 and counts[tgt['uid']] == 0:
                         if tgt['uid'] == m['uid']:
                             continue
@@ -158,6 +163,9 @@ def rows_for(draw, spec, seq, max_rows=6):
         for f in m['fields']:
             if f['kind'] == 'ManyToMany':
                 tgt = S.get_model(spec, *f['target'])
+                if tgt is None:
+                    links[f['uid']] = []
+                    continue
                 nf, nt = len(rows[m['uid']]), len(rows[tgt['uid']])
                 pairs = []
                 if nf and nt:
@@ -420,6 +428,18 @@ def same_value(kind, actual, expected):
     except Exception:
         return actual == expected
     return actual == expected and type(actual) == type(expected)
+
+
+def read_rows_from_tables(final_spec, tables):
+    """read_rows() over the driver's dump format {table: {'cols': [...], 'rows': [...]}}."""
+    def execute(sql, params=()):
+        import re
+        m = re.match(r'PRAGMA table_info\("(.+)"\)', sql)
+        if m:
+            return [(i, c) for i, c in enumerate(tables[m.group(1)]['cols'])]
+        m = re.match(r'SELECT \* FROM "(.+)"', sql)
+        return [tuple(r) for r in tables[m.group(1)]['rows']]
+    return read_rows(final_spec, execute, set(tables))
 
 
 def read_rows(final_spec, execute, existing_tables):
